@@ -74,7 +74,12 @@ func runC11(c *vh.Ctx) {
 		"(functions, loops, expression positions, getline target kinds, pipes); classes: trace (emit-only rules), range, argv (BEGIN edits " +
 		"ARGV/ARGC), mixed (getline forms, close, next/nextfile/exit nested in calls and loops), long-ctl / long-getline (1500-5000 records over " +
 		"3-4 files, early exits from inside user functions on most records, files closed and reopened thousands of times), corpus; non-trivial = at least two records " +
-		"were traced and the case has two operands or a getline or a control statement or a range")
+		"were traced and the case has two operands or a getline or a control statement or a range. " +
+		"history = one program of any of these classes (also special, raw corpus, long) on ONE interp.Interpreter performing 2-5 executions " +
+		"(Execute / ExecuteContext with background, live and already-cancelled contexts; own operand list, stdin and Config.Vars each; ResetVars " +
+		"before an execution or every readable variable pinned by Vars); every execution is compared with the same execution alone on a fresh " +
+		"interpreter, with the flat specification / trace clauses and with the Lean machine from its initial state; non-trivial = at least two " +
+		"of its executions are non-trivial; distribution hist:previous-execution-ended:<how>|left-open:<what>")
 
 	// the shared pool of real files, in a scratch directory that becomes the working directory
 	dir, err := os.MkdirTemp("", "c11-")
